@@ -1116,7 +1116,8 @@ pub fn run_case(case: &CrashCase, wroot: &Path, c02: bool, stats: &mut Stats) ->
       }
       // a deterministic work cap per case (heavy cases: bursts, long documents)
       let cap: u64 = match (case.samples > 2, c02) {
-        (true, _) => 400_000,
+        (true, true) => 60_000,
+        (true, false) => 400_000,
         (false, true) => 5_000,
         (false, false) => 25_000,
       } / if has_long_docs { 4 } else { 1 };
